@@ -18,6 +18,9 @@ func propC15(c *Ctx, r *Report) {
 	e := newEraCtx(c, r)
 	r.rule("C15/era-table", 5, "scheduled issuance functions executable exactly at their heights")
 	e.evalRows(r, e.rowsC15(r))
+	// exactly once: the block (with its one-time adjustments at the top of SyncBlock) is not applied a second time on
+	// the transaction a failed attempt already wrote into
+	ruleOneAttemptPerTx(c, r, "C15/one-attempt-per-tx")
 
 	// NullifyBurnAddress internals by era
 	r.rule("C15/burn-address", 2, "burn-address zeroing uses the address and history rows of its era")
